@@ -89,7 +89,7 @@ def run_harness(bindir, cases, timeout_ms=4000, stop_after_hangs=6):
     res = []
     i = 0
     while i < len(cases):
-        if sum(1 for r in res if r.get("timeout") or "crash" in r) >= stop_after_hangs:
+        if sum(1 for r in res if r.get("timeout")) + 0.2 * sum(1 for r in res if "crash" in r) >= stop_after_hangs:
             res += [{"skipped": True}] * (len(cases) - i)
             break
         batch = cases[i:]
@@ -219,14 +219,16 @@ def norm_impl_step(s, with_reads=True):
          "rim": {p: (None if m is None else sorted([a, b, t] for a, b, t in m)) for p, m in s["rim"]},
          "root": s.get("root")}
     if with_reads and "reads" in s:
-        o["reads"] = list(s["reads"])
+        # PathBuf::join(dir, "") renders as "dir/", which is the same PathBuf as "dir" (Eq/Hash are by components)
+        o["reads"] = [r.rstrip("/") if len(r) > 1 else r for r in s["reads"]]
     if s.get("root") is None:
         return o
     o["files"] = sorted(s["files"])
     o["links"] = {p: [list(x) for x in (l or [])] for p, l in s["links"].items()}
     o["notfound"] = {p: sorted([a, b] for a, b, m in ds if m.startswith(NOT_FOUND))
                      for p, ds in s["diagnostics"].items()}
-    o["outline"] = {p: [n for n, k in (l or [])] for p, l in s["outline"].items()}
+    # the model abstracts the class declarations only (IDecl); other outline kinds are compared by C07 / C18
+    o["outline"] = {p: [n for n, k in (l or []) if k == "Class"] for p, l in s["outline"].items()}
     return o
 
 
@@ -372,6 +374,11 @@ def evaluate(bindir, exe, cases, timeout_ms=3000, stop_after_hangs=6, reached=No
         texts.update(t for _, t in c["files"])
         texts.update(t for _, _, t in c["history"])
     absmap = abstract(bindir, texts)
+    for t, items in absmap.items():
+        sids = [tuple(a["inc"]) for a in items if "inc" in a]
+        if len(sids) != len(set(sids)):
+            raise vlib.BuildError("two Include nodes with the same range in %r: hypothesis NoDup (inc_sids ..) "
+                                  "of C16_links / C16_notfound does not hold for the real parser" % t)
     impl = run_harness(bindir, cases, timeout_ms, stop_after_hangs)
     it = Interner()
     lines, ctexts = [], []
@@ -424,3 +431,44 @@ def case_size(c):
 def reached_of(case):
     ts = {t for _, t in case["files"]} | {t for _, _, t in case["history"]}
     return {t: REACHED[t] for t in ts if t in REACHED}
+
+
+# ----------------------------------------------------------------------------- C07 / C12 helpers
+
+def case_key(c):
+    return vlib.sha(json.dumps([c.get("mode", "memfs"), sorted(map(list, c["files"])), c.get("include_dir"), c["history"]], sort_keys=True))
+
+
+def fresh_case(case, k, full=False):
+    """the fresh host of C07 for the state after the first k+1 operations: it is given only the
+    final file contents (disk overlaid by every touched text) and touches the final root once"""
+    fsys = overlay_after(case, k + 1)
+    root = [p for kind, p, _ in case["history"][:k + 1] if kind != "raw"][-1]
+    c = {"mode": "memfs", "files": sorted([p, t] for p, t in fsys.items()), "include_dir": case.get("include_dir"),
+         "history": [["touch", root, fsys[root]]]}
+    if full:
+        c["full"] = True
+    return c
+
+
+def proj_inputs(s):
+    """the three salsa inputs of a harness step keyed by path, restricted to the workspace
+    (= the [view] of the C07 theorem) plus every query result"""
+    files = s.get("files") or []
+    fset = set(files)
+    o = {"root": s.get("root"), "files": sorted(files),
+         "file_content": {p: c for p, c in s["fc"] if p in fset},
+         "resolved_include_map": {p: (None if m is None else sorted(map(list, m))) for p, m in s["rim"] if p in fset},
+         "diag_keys": s.get("diag_keys"),
+         "diagnostics": {p: sorted(map(list, v)) for p, v in (s.get("diagnostics") or {}).items()},
+         "links": s.get("links"), "outline": s.get("outline")}
+    if "queries" in s:
+        o["queries"] = s["queries"]
+    return o
+
+
+def first_diff(a, b):
+    for k in sorted(set(a) | set(b)):
+        if a.get(k) != b.get(k):
+            return k, a.get(k), b.get(k)
+    return None
